@@ -12,9 +12,12 @@ definitions of `Gen/C15.lean`, regenerated from the headers on every run.  This 
   `base chunk + slot * alignedSize` for the base address `base chunk` that `operator new` returned — the model is
   nondeterministic in these bases (they are universally quantified in the theorems), so the correspondence compares the
   `(chunk, slot)` names to which the harness maps the addresses the real pool returns.
+  Histories contain, besides allocate/free of live blocks, the requests the pool refuses: `PoolAllocator::allocate(n)`
+  with `n ≠ 1`, `free(nullptr)`, `free` of an address outside every chunk, and `allocate` while `operator new` fails.
 * `MallocAllocator`/`AlignedAllocator`: request validation, byte size, alignment argument; the C library is a parameter
   `os : bytes → Bool` (serves / returns NULL).
-* `DebugMemory::AllocationManager`: allocation list, page arithmetic, lookup on deallocate; `mmap` is a parameter.
+* `DebugMemory::AllocationManager`: allocation list, page arithmetic, lookup and size check on deallocate, the
+  `mmap`/`munmap` calls as a trace of OS events, the destructor; `mmap`'s answer is a parameter.
 * `isAligned` of debugalign.hh.
 Core Lean only.
 -/
@@ -93,27 +96,44 @@ def destroy (p : Pool) : List Nat := p.chunks
 def paAllocate (E n : Nat) (p : Pool) : Except Err (Block × Pool) :=
   if paAccepts n then .ok (allocate E p) else .error .alloc
 
+/-- `Pool::allocate()` when `operator new` may fail: `grow()` starts with `new Chunk`, so with `newOk = false` an empty
+    free list means bad_alloc before the pool is touched; a non-empty free list is popped without calling `new` -/
+def allocateOS (E : Nat) (newOk : Bool) (p : Pool) : Except Err (Block × Pool) :=
+  match p.free, newOk with
+  | [], false => .error .alloc
+  | _, _ => .ok (allocate E p)
+
 /-- byte address of a block for base addresses `base : chunk → address` -/
 def addr (g : Geo) (base : Nat → Nat) (b : Block) : Nat := base b.1 + b.2 * g.alignedSize
 
 /-! ### histories -/
 
 inductive Op where
-  | alloc
-  | free (b : Block)
+  | alloc                 -- Pool::allocate() (= PoolAllocator::allocate(1))
+  | allocN (n : Nat)      -- PoolAllocator::allocate(n)
+  | allocOom              -- Pool::allocate() while operator new throws bad_alloc
+  | free (q : Ptr)        -- Pool::free(q) (= PoolAllocator::deallocate(q, 1))
   deriving DecidableEq, Repr
 
 inductive Ev where
   | ret (b : Block)       -- allocate returned b
-  | freed (b : Block)     -- b was given back
-  | refused               -- free threw
+  | freed (q : Ptr)       -- q was accepted by free
+  | refused               -- the request threw bad_alloc
   deriving DecidableEq, Repr
 
 def step (g : Geo) (p : Pool) : Op → Pool × Ev
   | .alloc => let r := allocate g.elements p; (r.2, .ret r.1)
-  | .free b =>
-    match free g p (.blk b) with
-    | .ok p' => (p', .freed b)
+  | .allocN n =>
+    match paAllocate g.elements n p with
+    | .ok r => (r.2, .ret r.1)
+    | .error _ => (p, .refused)
+  | .allocOom =>
+    match allocateOS g.elements false p with
+    | .ok r => (r.2, .ret r.1)
+    | .error _ => (p, .refused)
+  | .free q =>
+    match free g p q with
+    | .ok p' => (p', .freed q)
     | .error _ => (p, .refused)
 
 def run (g : Geo) : Pool → List Op → Pool × List Ev
@@ -123,23 +143,45 @@ def run (g : Geo) : Pool → List Op → Pool × List Ev
     let rr := run g r.1 os
     (rr.1, r.2 :: rr.2)
 
-/-- a history is valid when only live blocks are given back -/
+/-- what the caller must respect: a block handed to `free` is one it obtained and has not given back yet.  Everything
+    else (any `n`, null and foreign pointers, allocation while memory is exhausted) is allowed at any time. -/
+def okOp (p : Pool) : Op → Prop
+  | .free (.blk b) => b ∈ p.live
+  | _ => True
+
+instance (p : Pool) : (o : Op) → Decidable (okOp p o)
+  | .free (.blk b) => inferInstanceAs (Decidable (b ∈ p.live))
+  | .free .null => isTrue trivial
+  | .free .foreign => isTrue trivial
+  | .alloc => isTrue trivial
+  | .allocN _ => isTrue trivial
+  | .allocOom => isTrue trivial
+
+/-- a history is valid when every operation respects `okOp` in the state it is issued in -/
 def Valid (g : Geo) : Pool → List Op → Prop
   | _, [] => True
-  | p, .alloc :: os => Valid g (step g p .alloc).1 os
-  | p, .free b :: os => b ∈ p.live ∧ Valid g (step g p (.free b)).1 os
+  | p, o :: os => okOp p o ∧ Valid g (step g p o).1 os
 
 instance decValid (g : Geo) : ∀ (p : Pool) (ops : List Op), Decidable (Valid g p ops)
   | _, [] => isTrue trivial
-  | p, .alloc :: os => decValid g (step g p .alloc).1 os
-  | p, .free b :: os => @instDecidableAnd _ _ inferInstance (decValid g (step g p (.free b)).1 os)
+  | p, o :: os => @instDecidableAnd _ _ inferInstance (decValid g (step g p o).1 os)
+
+/-- the requests a pool refuses by design -/
+def Op.isBad : Op → Bool
+  | .allocN n => n != 1
+  | .allocOom => true
+  | .free .null => true
+  | .free .foreign => true
+  | _ => false
 
 /-! ## MallocAllocator<T>, AlignedAllocator<T,A> -/
 
-/-- `allocate(n)`: the `n > max_size()` test (if the source has it), then `malloc(n*sizeof(T))`, NULL → bad_alloc.
-    Result: the number of bytes of the block obtained. -/
-def mallocAllocate (sz n : Nat) (os : Nat → Bool) : Except Err Nat :=
-  let serve : Except Err Nat := if os (mallocBytes sz n) then .ok (mallocBytes sz n) else .error .alloc
+/-- `allocate(n)`: the `n > max_size()` test (if the source has it), then `malloc(n*sizeof(T))` — or, for an over-aligned
+    `T`, `aligned_alloc(alignof(T), n*sizeof(T))` — NULL → bad_alloc.
+    Result: (alignment the C library guarantees for the call made, number of bytes of the block obtained). -/
+def mallocAllocate (sz al n : Nat) (os : Nat → Bool) : Except Err (Nat × Nat) :=
+  let serve : Except Err (Nat × Nat) :=
+    if os (mallocBytesFor sz al n) then .ok (mallocAlignment al, mallocBytesFor sz al n) else .error .alloc
   match mallocLimit sz with
   | some m => if n > m then .error .alloc else serve
   | none => serve
@@ -162,6 +204,12 @@ structure AInfo where
   size : Nat
   deriving DecidableEq, Repr
 
+/-- what the manager asks of the operating system -/
+inductive OsEv where
+  | map (pp len : Nat)       -- mmap(NULL, len, …) returned pp
+  | unmap (pp len : Nat)     -- munmap(pp, len)
+  deriving DecidableEq, Repr
+
 /-- `allocate<T>(n)`; `mmap len = some page_ptr` or `none` (MAP_FAILED → bad_alloc) -/
 def dbgAllocate (sz page n : Nat) (mmap : Nat → Option Nat) (l : List AInfo) : Except Err (AInfo × List AInfo) :=
   let serve : Except Err (AInfo × List AInfo) :=
@@ -175,43 +223,80 @@ def dbgAllocate (sz page n : Nat) (mmap : Nat → Option Nat) (l : List AInfo) :
   | some m => if n > m then .error .alloc else serve
   | none => serve
 
-/-- `deallocate(ptr)`: the first entry whose `page_ptr` equals the lookup key decides; `ptr == it->ptr` is asserted;
+/-- `deallocate(ptr, n)`: the first entry whose `page_ptr` equals the lookup key decides; `n == 0 || n == it->size` and
+    `ptr == it->ptr` are asserted; the entry is unmapped and erased.  Result: the entry found and the remaining list;
     `none` = `allocation_error` (abort) -/
-def dbgDeallocate (page : Nat) : List AInfo → Nat → Option (List AInfo)
-  | [], _ => none
-  | it :: rest, ptr =>
+def dbgDeallocate (page : Nat) : List AInfo → Nat → Nat → Option (AInfo × List AInfo)
+  | [], _, _ => none
+  | it :: rest, ptr, n =>
     if it.pagePtr = dbgLookupKey ptr page then
-      (if ptr = it.ptr then some rest else none)
-    else (dbgDeallocate page rest ptr).map (it :: ·)
+      (if dbgSizeOk n it.size ∧ ptr = it.ptr then some (it, rest) else none)
+    else (dbgDeallocate page rest ptr n).map (fun r => (r.1, it :: r.2))
 
 /-- histories of the allocation manager; the answer of `mmap` is part of the operation (nondeterministic OS) -/
 inductive DOp where
   | alloc (n : Nat) (mm : Option Nat)
-  | free (ptr : Nat)
+  | free (ptr : Nat) (n : Nat)          -- deallocate(ptr, n); n = 0: size not checked
   deriving Repr
 
-/-- `none` = the manager called `allocation_error` (abort) -/
-def dbgStep (sz page : Nat) (l : List AInfo) : DOp → Option (List AInfo)
+/-- one step: new allocation list and the OS calls made; `none` = the manager called `allocation_error` (abort) -/
+def dbgStep (sz page : Nat) (l : List AInfo) : DOp → Option (List AInfo × List OsEv)
   | .alloc n mm => match dbgAllocate sz page n (fun _ => mm) l with
-    | .ok r => some r.2
-    | .error _ => some l
-  | .free ptr => dbgDeallocate page l ptr
+    | .ok r => some (r.2, [.map r.1.pagePtr (dbgMapLen r.1.cap page)])
+    | .error _ => some (l, [])
+  | .free ptr n => match dbgDeallocate page l ptr n with
+    | some r => some (r.2, [.unmap r.1.pagePtr (dbgUnmapLen r.1.pages page)])
+    | none => none
 
-def dbgRun (sz page : Nat) : List AInfo → List DOp → Option (List AInfo)
-  | l, [] => some l
+def dbgRun (sz page : Nat) : List AInfo → List DOp → Option (List AInfo × List OsEv)
+  | l, [] => some (l, [])
   | l, o :: os => match dbgStep sz page l o with
     | none => none
-    | some l' => dbgRun sz page l' os
+    | some st => match dbgRun sz page st.1 os with
+      | none => none
+      | some st' => some (st'.1, st.2 ++ st'.2)
 
-/-- valid history: `mmap` returns page-aligned addresses of mappings that are not in use, and only pointers of live
-    blocks are given back -/
-def DValid (sz page : Nat) : List AInfo → List DOp → Prop
+/-- `~AllocationManager()`: every entry still recorded is unmapped; `false` = blocks were still in use
+    (`allocation_error("lost allocations")`) -/
+def dbgDestroy (page : Nat) (l : List AInfo) : List OsEv × Bool :=
+  (l.map fun it => .unmap it.pagePtr (dbgDtorUnmapLen it.pages page), l.isEmpty)
+
+def maps : List OsEv → List (Nat × Nat)
+  | [] => []
+  | .map pp len :: es => (pp, len) :: maps es
+  | .unmap _ _ :: es => maps es
+
+def unmaps : List OsEv → List (Nat × Nat)
+  | [] => []
+  | .map _ _ :: es => unmaps es
+  | .unmap pp len :: es => (pp, len) :: unmaps es
+
+/-- the address range of the mapping that belongs to an entry -/
+def AInfo.rng (page : Nat) (it : AInfo) : Nat × Nat := (it.pagePtr, it.pages * page)
+
+/-- two mappings do not overlap -/
+def apart (page : Nat) (a b : AInfo) : Prop :=
+  a.pagePtr + a.pages * page ≤ b.pagePtr ∨ b.pagePtr + b.pages * page ≤ a.pagePtr
+
+instance (page : Nat) (a b : AInfo) : Decidable (apart page a b) := by unfold apart; exact inferInstance
+
+/-- valid history relative to what is assumed of `mmap` (`R old new` relates every recorded entry to a new mapping):
+    `mmap` returns page-aligned addresses that satisfy `R`, and only pointers of live blocks are given back, with their
+    size or with `n = 0` -/
+def DValidG (sz page : Nat) (R : AInfo → AInfo → Prop) : List AInfo → List DOp → Prop
   | _, [] => True
   | l, .alloc n mm :: os =>
-    (∀ a, mm = some a → page ∣ a ∧ ∀ it ∈ l, it.pagePtr ≠ a) ∧
-    ∀ l', dbgStep sz page l (.alloc n mm) = some l' → DValid sz page l' os
-  | l, .free ptr :: os =>
-    (∃ it ∈ l, it.ptr = ptr) ∧ ∀ l', dbgStep sz page l (.free ptr) = some l' → DValid sz page l' os
+    (∀ ai l', dbgAllocate sz page n (fun _ => mm) l = .ok (ai, l') → page ∣ ai.pagePtr ∧ ∀ it ∈ l, R it ai) ∧
+    ∀ st, dbgStep sz page l (.alloc n mm) = some st → DValidG sz page R st.1 os
+  | l, .free ptr n :: os =>
+    (∃ it ∈ l, it.ptr = ptr ∧ (n = 0 ∨ n = it.size)) ∧
+    ∀ st, dbgStep sz page l (.free ptr n) = some st → DValidG sz page R st.1 os
+
+/-- `mmap` never returns the start address of a mapping that is in use -/
+abbrev DValid (sz page : Nat) := DValidG sz page (fun it ai => it.pagePtr ≠ ai.pagePtr)
+
+/-- `mmap` returns address ranges disjoint from every mapping that is in use -/
+abbrev DValidD (sz page : Nat) := DValidG sz page (apart page)
 
 /-! ## debugalign.hh -/
 
@@ -226,16 +311,26 @@ def osServes (bytes : Nat) : Bool := bytes < 2 ^ 47
 
 def showBlock (b : Block) : String := toString b.1 ++ "." ++ toString b.2
 
-/-- one op of a pool history: `a` | `n<k>` (PoolAllocator::allocate(k)) | `f<k>` (free the k-th live block) |
-    `fn` (free(nullptr)) | `fx` (free(foreign)) -/
+/-- one op of a pool history: `a` | `ao` (allocate while operator new fails) | `n<k>` (PoolAllocator::allocate(k)) |
+    `f<k>` (free the k-th live block) | `fn` (free(nullptr)) | `fx` (free(foreign)) | `fe`/`fb` (free of the address just
+    behind / just in front of the newest chunk's storage: outside every chunk) -/
 def poolOp (g : Geo) (isPA : Bool) (p : Pool) (op : String) : Option (Pool × String) :=
   let cs := op.toList
   match cs with
   | ['a'] => let r := allocate g.elements p; some (r.2, showBlock r.1)
+  | ['a', 'o'] => match allocateOS g.elements false p with
+    | .ok r => some (r.2, showBlock r.1)
+    | .error _ => some (p, "ERR:Alloc")
   | ['f', 'n'] => match free g p .null with
     | .ok p' => some (p', "ok")
     | .error _ => some (p, "ERR:Alloc")
   | ['f', 'x'] => match free g p .foreign with
+    | .ok p' => some (p', "ok")
+    | .error _ => some (p, "ERR:Alloc")
+  | ['f', 'e'] => match free g p .foreign with
+    | .ok p' => some (p', "ok")
+    | .error _ => some (p, "ERR:Alloc")
+  | ['f', 'b'] => match free g p .foreign with
     | .ok p' => some (p', "ok")
     | .error _ => some (p, "ERR:Alloc")
   | 'f' :: ds => match (String.ofList ds).toNat? with
@@ -293,8 +388,8 @@ def rawOps (alloc : Nat → Bool) : List Nat → List String → Option (List St
         else (rawOps alloc live os).map ("-" :: ·)
     | _ => none
 
-def mallocLine (sz : Nat) (ops : String) : String :=
-  match rawOps (fun n => match mallocAllocate sz n osServes with | .ok _ => true | .error _ => false) [] (splitOps ops) with
+def mallocLine (sz al : Nat) (ops : String) : String :=
+  match rawOps (fun n => match mallocAllocate sz al n osServes with | .ok _ => true | .error _ => false) [] (splitOps ops) with
   | none => "bad-op"
   | some outs => "max=" ++ toString (mallocMaxSize sz) ++ " : " ++ ";".intercalate outs
 
@@ -305,35 +400,45 @@ def alignedLine (sz al A : Nat) (ops : String) : String :=
   | some outs => "max=" ++ toString (mallocMaxSize sz) ++ " align=" ++ toString (alignedAlignment al A) ++ " : " ++
       ";".intercalate outs
 
-/-- debug histories: the driver plays `mmap` with a bump pointer (fresh, page aligned, never reused) -/
-def dbgOps (sz page : Nat) : Nat → List AInfo → List String → Option (List String)
-  | _, _, [] => some []
+/-- debug histories: the driver plays `mmap` with a bump pointer (fresh, page aligned, never reused).
+    `a<n>` allocate(n) | `f<k>` deallocate(k-th live block, its size) | `z<k>` deallocate(k-th live block, 0).
+    Result: answers and the OS events -/
+def dbgOps (sz page : Nat) : Nat → List AInfo → List String → Option (List String × List OsEv)
+  | _, _, [] => some ([], [])
   | brk, l, o :: os =>
+    let dealloc (k n? : Nat) : Option (List String × List OsEv) :=
+      match l[k]? with
+      | none => (dbgOps sz page brk l os).map fun r => ("-" :: r.1, r.2)
+      | some it => match dbgStep sz page l (.free it.ptr (if n? = 0 then 0 else it.size)) with
+        | some st => (dbgOps sz page brk st.1 os).map fun r => ("ok" :: r.1, st.2 ++ r.2)
+        | none => (dbgOps sz page brk l os).map fun r => ("ABORT" :: r.1, r.2)
     match o.toList with
     | 'a' :: ds => match (String.ofList ds).toNat? with
       | none => none
       | some n =>
         if n ≥ 2 ^ 64 then none else
-        match dbgAllocate sz page n (fun len => if osServes len then some brk else none) l with
-        | .ok (ai, l') => (dbgOps sz page (brk + ai.pages * page + page) l' os).map ("ok" :: ·)
-        | .error _ => (dbgOps sz page brk l os).map ("ERR:Alloc" :: ·)
+        let mm := if osServes (dbgMapLen (dbgCapacity sz n) page) then some brk else none
+        match dbgAllocate sz page n (fun _ => mm) l, dbgStep sz page l (.alloc n mm) with
+        | .ok (ai, _), some st =>
+          (dbgOps sz page (brk + ai.pages * page + page) st.1 os).map fun r => ("ok" :: r.1, st.2 ++ r.2)
+        | _, _ => (dbgOps sz page brk l os).map fun r => ("ERR:Alloc" :: r.1, r.2)
     | 'f' :: ds => match (String.ofList ds).toNat? with
       | none => none
-      | some k => match l[k]? with
-        | none => (dbgOps sz page brk l os).map ("-" :: ·)
-        | some it => match dbgDeallocate page l it.ptr with
-          | some l' => (dbgOps sz page brk l' os).map ("ok" :: ·)
-          | none => (dbgOps sz page brk l os).map ("ABORT" :: ·)
+      | some k => dealloc k 1
+    | 'z' :: ds => match (String.ofList ds).toNat? with
+      | none => none
+      | some k => dealloc k 0
     | _ => none
 
 def debugLine (sz page : Nat) (ops : String) : String :=
   if page = 0 then "bad-op" else
   match dbgOps sz page (16 * page) [] (splitOps ops) with
   | none => "bad-op"
-  | some outs => "dbg : " ++ ";".intercalate outs
+  | some (outs, evs) => "dbg : " ++ ";".intercalate outs ++ " : mapped=" ++ toString (maps evs).length ++
+      " unmapped=" ++ toString (unmaps evs).length
 
-/-- `align <A> : i<off>;p<off>`: isAligned(buf+off, A) with a buffer aligned to 4096; `p` = placement new of an
-    `AlignedNumber<double,A>` (the violation handler is called iff not aligned) -/
+/-- `align <A> : i<off>;p<off>;q<off>`: isAligned(buf+off, A) with a buffer aligned to 4096; `p` = placement new of an
+    `AlignedNumber<double,A>`, `q` = array placement new of two of them (the violation handler is called iff not aligned) -/
 def alignOps (A : Nat) : List String → Option (List String)
   | [] => some []
   | o :: os =>
@@ -342,6 +447,9 @@ def alignOps (A : Nat) : List String → Option (List String)
       | none => none
       | some off => (alignOps A os).map ((if isAligned off A then "true" else "false") :: ·)
     | 'p' :: ds => match (String.ofList ds).toNat? with
+      | none => none
+      | some off => (alignOps A os).map ((if isAligned off A then "ok" else "viol") :: ·)
+    | 'q' :: ds => match (String.ofList ds).toNat? with
       | none => none
       | some off => (alignOps A os).map ((if isAligned off A then "ok" else "viol") :: ·)
     | _ => none
@@ -363,9 +471,9 @@ def handle (line : String) : String :=
     | ["pa", sz, al, s] => match sz.toNat?, al.toNat?, s.toNat? with
       | some sz, some al, some s => if sz = 0 ∨ al = 0 then "bad-op" else poolLine sz al s true ops
       | _, _, _ => "bad-op"
-    | ["malloc", sz, _al] => match sz.toNat? with
-      | some sz => if sz = 0 then "bad-op" else mallocLine sz ops
-      | _ => "bad-op"
+    | ["malloc", sz, al] => match sz.toNat?, al.toNat? with
+      | some sz, some al => if sz = 0 ∨ al = 0 then "bad-op" else mallocLine sz al ops
+      | _, _ => "bad-op"
     | ["aligned", sz, al, A] => match sz.toNat?, al.toNat?, A.toNat? with
       | some sz, some al, some A => if sz = 0 ∨ al = 0 then "bad-op" else alignedLine sz al A ops
       | _, _, _ => "bad-op"
